@@ -1,13 +1,37 @@
 """C17 — SMPP time format: correspondence and property predicate."""
 import calendar
-from datetime import datetime, timedelta, timezone
+from datetime import datetime, timedelta, timezone, tzinfo
 from vlib import Case, nats, exc_name
+
+
+class RuleZone(tzinfo):
+    """a rule-based zone: ONE tzinfo object whose utcoffset depends on the date (winter / summer offset in
+    seconds, summer = April..September), as zoneinfo / dateutil zones do"""
+    def __init__(self, winter, summer):
+        self.winter, self.summer = winter, summer
+
+    def utcoffset(self, dt):
+        return timedelta(seconds=self.summer if dt is not None and 4 <= dt.month <= 9 else self.winter)
+
+    def dst(self, dt):
+        return timedelta(0)
+
+    def tzname(self, dt):
+        return 'rule%+d%+d' % (self.winter, self.summer)
+
+
+_ZONES = {}
+
+
+def zone(winter, summer):
+    """the same object for the same rule, all through the run (what an application holding a zone does)"""
+    return _ZONES.setdefault((winter, summer), RuleZone(winter, summer))
 
 ID = 'C17'
 TARGETS = ['SmppVerif.Props.C17']
 RULE = ('absolute: every quarter-hour offset -48..+48 and naive x {first/last day of every month, leap days, years '
         '2000/2069/2070/2099} x tenths 0..9, plus offsets outside the property domain (any minute, up to +-23:59) and '
-        'random instants; relative: every whole day 0..441 x boundary seconds, random durations, negative and '
+        'random instants, and datetimes of both seasons through ONE rule-based tzinfo object per zone (offset depends on the date); relative: every whole day 0..441 x boundary seconds, random durations, negative and '
         'over-long durations; decode direction: every encoded string plus malformed ASCII strings (short, signs, '
         'underscores, blanks, out-of-range fields). distinct-nontrivial = distinct (operation, kind, offset class / '
         'year bucket / field-out-of-range class, outcome class)')
@@ -15,7 +39,7 @@ TRUSTED = ['Lean 4.33.0 kernel', 'axioms: propext, Quot.sound',
            'Spec/TimeFormat.lean: hand transcription of SMPP 3.4 section 7.1.1',
            'CPython datetime/timedelta/strftime/int() (modelled, swept, not verified)',
            'tools/corr/c17.py + Driver.lean line protocol']
-ASSUMPTIONS = ['a tzinfo is reduced to its utcoffset in whole seconds',
+ASSUMPTIONS = ['a tzinfo is reduced to its utcoffset (at the datetime converted) in whole seconds',
                'strftime(%y%m%d%H%M%S) is modelled as two-digit fields',
                'int() is modelled on ASCII input only (digits, sign, underscores, white space)',
                'a naive datetime denotes the same fields at UTC (it is written with offset 00+)']
@@ -49,24 +73,37 @@ def spec_render_abs(d, off):
                                                   d.microsecond // 100000, q, sign)
 
 
-def to_case(obj, off=None):
-    """obj: None | naive datetime (+ off seconds or None) | timedelta"""
+def to_case(obj, off=None, rule=None, prior=None):
+    """obj: None | naive datetime (+ off seconds or None, or a rule-based zone (winter, summer)) | timedelta;
+    prior: datetimes converted through the same zone object before (replay of a zone case)"""
     f, g = fns()
     fail = None
+    if rule is not None:
+        z = zone(*rule)
+        off = int(z.utcoffset(obj).total_seconds())
+        for pf in (prior or []):
+            try:
+                f(datetime(*pf).replace(tzinfo=z))
+            except Exception:      # noqa
+                pass
     if obj is None:
         line = 'time.to none'
         arg = None
         inp = {'op': 'to', 'kind': 'none'}
         sig = ('to', 'none')
     elif isinstance(obj, datetime):
-        arg = obj if off is None else obj.replace(tzinfo=timezone(timedelta(seconds=off)))
+        arg = obj if off is None else obj.replace(tzinfo=zone(*rule) if rule is not None
+                                                  else timezone(timedelta(seconds=off)))
         line = 'time.to abs %d %d %d %d %d %d %d %s' % (obj.year, obj.month, obj.day, obj.hour, obj.minute,
                                                         obj.second, obj.microsecond, '-' if off is None else off)
         inp = {'op': 'to', 'kind': 'abs', 'fields': [obj.year, obj.month, obj.day, obj.hour, obj.minute,
                                                      obj.second, obj.microsecond], 'off': off}
+        if rule is not None:
+            inp['rule'] = list(rule)
+            inp['prior'] = list(prior or [])
         in_dom = 2000 <= obj.year <= 2099 and (off is None or (off % 900 == 0 and abs(off) <= 43200))
         sig = ('to', 'abs', 'naive' if off is None else ('q' if off % 900 == 0 else 'odd', off < 0, abs(off) > 43200),
-               obj.year // 35, in_dom)
+               obj.year // 35, in_dom, rule is not None)
     else:
         arg = obj
         line = 'time.to rel %d %d %d' % (obj.days, obj.seconds, obj.microseconds)
@@ -158,6 +195,22 @@ def generate(rng, tier):
         yield emit(datetime(2025, 3, 4, 5, 6, 7, 890000), off)
     for y in (1, 99, 1900, 1969, 1999, 2100, 2101, 9999):
         yield emit(datetime(y, 6, 15, 1, 2, 3, 400000), rng.choice(offs))
+    # rule-based zones: one tzinfo object per zone, its offset depends on the date; dates of both seasons in turn
+    seen = {}
+    rules = [(3600, 7200), (-12600, -9000), (20700, 24300), (0, 3600), (-18000, -14400), (34200, 37800)]
+    for k in range(120 if thorough else 36):
+        rule = rules[k % len(rules)]
+        y = rng.randrange(2000, 2100)
+        m = (1, 7, 12, 4, 9, 10, 3, 6)[(k // len(rules)) % 8]
+        d = datetime(y, m, rng.randrange(1, 29), rng.randrange(24), rng.randrange(60), rng.randrange(60),
+                     rng.randrange(10) * 100000)
+        prior = seen.setdefault(rule, [])
+        c, s = to_case(d, rule=rule, prior=None)
+        c.inp['prior'] = list(prior)
+        prior.append([d.year, d.month, d.day, d.hour, d.minute, d.second, d.microsecond])
+        if s:
+            strings.add(s)
+        yield c
     for _ in range(6000 if thorough else 1500):
         y = rng.randrange(2000, 2100)
         m = rng.randrange(1, 13)
@@ -213,6 +266,9 @@ def replay(inp):
         return to_case(None)[0]
     if inp['kind'] == 'abs':
         f = inp['fields']
+        if inp.get('rule') is not None:
+            _ZONES.pop(tuple(inp['rule']), None)
+            return to_case(datetime(*f), rule=tuple(inp['rule']), prior=inp.get('prior'))[0]
         return to_case(datetime(*f), inp['off'])[0]
     d, s, us = inp['fields']
     return to_case(timedelta(days=d, seconds=s, microseconds=us))[0]
